@@ -140,7 +140,10 @@ func (fs *LocalFS) CreateSymlink(n NodeSymlink) error {
 		return err
 	}
 
-	return nil
+	if n.MTime == time.Unix(0, 0) {
+		return nil
+	}
+	return lchtimes(dst, n.MTime)
 }
 
 type walkEntry struct {
